@@ -13,7 +13,7 @@ import os
 import socket as _socket
 import time as _time
 
-from vmc.core.explore import BudgetExceeded, Ctx
+from vmc.core.explore import BudgetExceeded, Ctx, HarnessBug
 
 WORLD = None
 _real = {}
@@ -306,7 +306,10 @@ class World:
         chunk = data[:n]
         sock.tx_accepted += n
         self.accepted += chunk
-        reply = sock.ep.feed(chunk)
+        try:
+            reply = sock.ep.feed(chunk)
+        except Exception as e:  # noqa - a bug of the reference target, not a modelled fault
+            raise HarnessBug(f"reference target failed: {type(e).__name__}: {e}") from e
         if reply:
             sock.rx += reply
         return n
